@@ -10,8 +10,7 @@ import lib_env as L
 P_OUT = ("8.8.8.8", 5002)
 P_LOOP = ("127.0.0.1", 5000)
 KINDS = ["sync", "gthread", "async"]
-LISTED = ("REQUEST_METHOD", "RAW_URI", "SERVER_PROTOCOL", "QUERY_STRING", "CONTENT_LENGTH", "CONTENT_TYPE",
-          "PATH_INFO", "SCRIPT_NAME")
+LISTED = ("REQUEST_METHOD", "RAW_URI", "SERVER_PROTOCOL", "QUERY_STRING", "CONTENT_LENGTH", "CONTENT_TYPE")
 
 
 def request(target, headers=(), version=b"1.1", method=b"GET"):
@@ -67,6 +66,7 @@ HEADER_SETS = [
     [("Foo", ""), ("Foo", " x"), ("Foo", "")],
     [("Foo", " caf\xe9 \xff\x80")],
     [("Foo", " a,b"), ("Foo", " c")],
+    [("Foo", "\x0bv\x0c"), ("Bar", "\xa0v\x85"), ("Baz", " \x1cv\x1f ")],     # str.strip() whitespace that is not OWS
     [("Content-Type", " text/plain")],
     [("content-type", " a/b; charset=x")],
     [("Content-Type", " a"), ("Content-Type", " b")],
@@ -181,14 +181,14 @@ def judge(case):
     if pr[0] == b"CONNECT":
         return fails                    # authority-form: outside the property's quantifier
     exp, refuse = L.ref_env(case["cfg"], case["peer"], reqs[0], None)
-    if exp.get("PATH_INFO") is None:
-        fails.append((None, "served although the path does not start with SCRIPT_NAME %r" % exp.get("SCRIPT_NAME")))
-        return fails
     names = [L.ascii_upper(n) for n, _ in pr[3]]
     for var in LISTED:
         if env.get(var) != exp.get(var):
             key = "content-type-last-wins" if (var == "CONTENT_TYPE" and names.count(b"CONTENT-TYPE") > 1) else None
             fails.append((key, "%s = %r, reference %r (target %r)" % (var, env.get(var), exp.get(var), pr[1])))
+    bad_path = L.ref_path_check(env, exp)
+    if bad_path:
+        fails.append((None, "%s (target %r)" % (bad_path, pr[1])))
     got = {k: v for k, v in env.items() if k.startswith("HTTP_")}
     want = {k: v for k, v in exp.items() if k.startswith("HTTP_")}
     if got != want:
